@@ -359,6 +359,10 @@ def f_range(x):
     return v.max() - v.min()
 
 
+def f_first(x):
+    return x[0]
+
+
 PIVOT_CFG = [
     # name, index_fields, columns_fields, data_fields, func, fill
     ('i|c|d|sum', ('i',), ('c',), ('d',), None, np.nan),
@@ -370,6 +374,11 @@ PIVOT_CFG = [
     ('i,c|-|d|sum', ('i', 'c'), (), ('d',), None, np.nan),
     ('i|c,j|d|sum|fill-9', ('i',), ('c', 'j'), ('d',), None, -9),
     ('i,j|c|e|min', ('i', 'j'), ('c',), ('e',), np.min, np.nan),
+    # a function map over SEVERAL data fields: one column per (column value, data field, function)
+    ('i|c|d,e|map', ('i',), ('c',), ('d', 'e'), {'mn': np.min, 'mx': np.max}, np.nan),
+    ('i|-|d,e|map', ('i',), (), ('d', 'e'), {'mn': np.min, 'mx': np.max}, np.nan),
+    # a text data field with a text fill value wider than the column's own width
+    ('i|c|s|first|fill-wide-text', ('i',), ('c',), ('s',), f_first, 'missing'),
 ]
 
 
@@ -391,8 +400,9 @@ def run_pivot(case, ctx):
         jv = [(i * 7) % 2 + 10 for i in range(n)]
         dv = [3 + 2 * i for i in range(n)]
         ev = [1.5 * (i + 1) for i in range(n)]
-        colmap = {'i': (iv, 'int64' if keykind == 'int' else 'datetime64[ns]'), 'c': (cv, '<U1'), 'j': (jv, 'int64'), 'd': (dv, 'int64'), 'e': (ev, 'float64')}
-        names = ['i', 'j', 'c', 'd', 'e']
+        sv = ['t%d' % i for i in range(n)]
+        colmap = {'i': (iv, 'int64' if keykind == 'int' else 'datetime64[ns]'), 'c': (cv, '<U1'), 'j': (jv, 'int64'), 'd': (dv, 'int64'), 'e': (ev, 'float64'), 's': (sv, '<U2')}
+        names = ['i', 'j', 'c', 'd', 'e'] + (['s'] if 's' in dfs else [])
         f, sig = mkframe([arr(*colmap[k]) for k in names], names, index, li)
         ctx.state(('pivot', keykind, tuple(assign), sig))
         ctx.transition()
